@@ -187,14 +187,7 @@ class Runner(object):
         plan.recv_record_sizes[path] = {"64k": [65536], "one": [1] if len(content) <= 600 else [997], "random": [rng.randint(1, 65536) for _ in range(7)], "alt": [1, 65536]}[rec]
         plan.split_mode = step.get("split", "whole")
         cb_calls = []
-        cb = None
-        if step.get("cb") == "ok":
-            def cb(p, n, total):
-                cb_calls.append((p, n, total))
-        elif step.get("cb") == "raise":
-            def cb(p, n, total):
-                cb_calls.append((p, n, total))
-                raise RuntimeError("callback failure (deliberate)")
+        cb = make_callback(self.sess.impl, step.get("cb"), cb_calls)
         if step.get("dest") == "path":
             dest = os.path.join(self.tmpdir(), "pulled%d" % i)
         else:
@@ -217,14 +210,7 @@ class Runner(object):
         plan = self.sim.sync_plan
         n_before = len(plan.pushed)
         cb_calls = []
-        cb = None
-        if step.get("cb") == "ok":
-            def cb(p, n, total):
-                cb_calls.append((p, n, total))
-        elif step.get("cb") == "raise":
-            def cb(p, n, total):
-                cb_calls.append((p, n, total))
-                raise RuntimeError("callback failure (deliberate)")
+        cb = make_callback(self.sess.impl, step.get("cb"), cb_calls)
         if step.get("src") == "file":
             src = os.path.join(self.tmpdir(), "src%d" % i)
             with open(src, "wb") as f:
@@ -244,6 +230,24 @@ class Runner(object):
             if sum(c[1] for c in cb_calls) != len(content) or any(c[0] != step["path"] or c[2] != len(content) for c in cb_calls):
                 v.append(self._v("C07", "callback", "callback saw %r for a %d-byte source" % (cb_calls[:5], len(content))))
         return out, v
+
+
+def make_callback(impl, kind, calls):
+    """progress callback of the right flavour: AdbDeviceAsync awaits its callback"""
+    if not kind:
+        return None
+    if impl == "sync":
+        def cb(p, n, total):
+            calls.append((p, n, total))
+            if kind == "raise":
+                raise RuntimeError("callback failure (deliberate)")
+        return cb
+
+    async def acb(p, n, total):
+        calls.append((p, n, total))
+        if kind == "raise":
+            raise RuntimeError("callback failure (deliberate)")
+    return acb
 
 
 def check_pushed(pushed, expect, mode, mtime, trange, mk):
